@@ -26,6 +26,13 @@ THEOREMS = [
     "DAVerif.Expr.C13_dunder_guard_necessary",
     "DAVerif.Expr.C13_callee_guard_necessary",
 ]
+# further theorems of these modules (supporting / intermediate statements of the property theorems above): audited
+# for axioms on every run like the rest
+THEOREMS += [
+    "DAVerif.Expr.C13_walk_names",
+    "DAVerif.Expr.C13_generated_tableNames_ident",
+    "DAVerif.Expr.C13_walk_wf_unguarded_false",
+]
 ASSUMPTIONS = [
     "lark's LALR parser and lexer implement python3_lark.grammar (tied on every run: lark's tree for each generated "
     "text = the model parser's tree on lark's tokens, and = CPython's ast under the standard reading)",
